@@ -41,9 +41,31 @@ func die(code int, f string, a ...any) {
 
 var verifDir string
 
+// modfileArgs supports building against another checkout of bbolt than /repo
+// (VERIF_REPO=<dir>; used for background runs on a snapshot): a copy of go.mod
+// with the replace directive rewritten is passed with -modfile.
+func modfileArgs(scratch string) []string {
+	repo := os.Getenv("VERIF_REPO")
+	if repo == "" || repo == "/repo" {
+		return nil
+	}
+	b, err := os.ReadFile(filepath.Join(verifDir, "go.mod"))
+	if err != nil {
+		return nil
+	}
+	mod := strings.Replace(string(b), "=> /repo", "=> "+repo, 1)
+	mf := filepath.Join(scratch, "alt.mod")
+	_ = os.WriteFile(mf, []byte(mod), 0644)
+	if sum, err := os.ReadFile(filepath.Join(verifDir, "go.sum")); err == nil {
+		_ = os.WriteFile(filepath.Join(scratch, "alt.sum"), sum, 0644)
+	}
+	return []string{"-modfile=" + mf}
+}
+
 func buildWorker(scratch string) string {
 	bin := filepath.Join(scratch, "worker.test")
-	cmd := exec.Command("go", "test", "-c", "-tags", "verif", "-o", bin, "./props")
+	args := append([]string{"test", "-c", "-tags", "verif", "-o", bin}, modfileArgs(scratch)...)
+	cmd := exec.Command("go", append(args, "./props")...)
 	cmd.Dir = verifDir
 	out, err := cmd.CombinedOutput()
 	if err != nil {
@@ -583,7 +605,8 @@ func main() {
 
 func buildRace(scratch string) (string, string) {
 	bin := filepath.Join(scratch, "race.test")
-	cmd := exec.Command("go", "test", "-race", "-c", "-tags", "verif", "-o", bin, "./props")
+	args := append([]string{"test", "-race", "-c", "-tags", "verif", "-o", bin}, modfileArgs(scratch)...)
+	cmd := exec.Command("go", append(args, "./props")...)
 	cmd.Dir = verifDir
 	out, err := cmd.CombinedOutput()
 	if err != nil {
